@@ -1,4 +1,5 @@
 """Orchestrator properties: C16 (CLI modes / write protocol), C17 (encoding & BOM), C18 (batch = alone)."""
+import re
 from facts import norm, Origins
 from progress import dominating_variant_facts, bfs_path
 from table import Table, TooComplex, render, canon_place
@@ -220,6 +221,8 @@ def c16c(prog, rep):
     if not rep.check(b is not None, R, "anchor:write", "FileFormatter::write not found"):
         return
     was = b.calls_to("std::io::Write::write_all")
+    if _pathwise_length(prog, rep, R, b, was):
+        return
     len_local = None
     for i, lc in enumerate(b.locals):
         if lc.get("name") == "len" and lc["ty"] == "usize":
@@ -279,6 +282,61 @@ def c16c(prog, rep):
     rep.floor(R, "write_all calls accounted", matched, 2)
     for w in was:
         rep.check(question_propagated(b, w), R, "propagated:write_all:%s" % canon(b, w.args[1]), "a write_all result is not `?`-propagated", where=w.where())
+
+
+def _pathwise_length(prog, rep, R, b, was):
+    """The semantic form of C16.c: on every path of write() that returns Ok(n), n is the sum of the lengths of exactly the buffers
+    handed to write_all on that path (path enumeration of the loop-free body with the checked additions evaluated along the path;
+    an optional buffer may be counted as `opt.map_or(0, len)`).  Returns False when write() is not loop-free (nothing reported;
+    the counter-shape rules below then apply)."""
+    from table import split_call
+    try:
+        tb = Table(prog, b)
+    except TooComplex:
+        return False
+
+    def clean(x):
+        return re.sub(r"\b(place|call|sym):", "", x).replace(" ", "")
+
+    def terms(x):
+        sc = split_call(x)
+        if sc and sc[0] == "Add" and len(sc[1]) == 2:
+            return terms(sc[1][0]) + terms(sc[1][1])
+        return [x]
+    n_ok = 0
+    most = 0
+    for (cons, res), calls in zip(tb.rows, tb.calls):
+        r = clean(render(res)) if not isinstance(res, str) else clean(res)
+        if not r.startswith("Ok("):
+            continue
+        n_ok += 1
+        payload = split_call(r)[1][0]
+        written = [clean(a[1]) for nm, a in calls if nm == "std::io::Write::write_all"]
+        most = max(most, len(written))
+        ts = [t for t in terms(payload) if t != "0"]
+        none_here = {c[1] for c in cons if c[0] == "is" and c[2] == "None"}
+        unmatched = list(ts)
+        missing = []
+        for wa in written:
+            alts = ["len(%s)" % wa]
+            if wa.endswith("@Some.0"):
+                base = wa[:-len("@Some.0")]
+                alts += [t for t in unmatched if t.startswith("map_or(%s,0," % base)]
+            hit = [t for t in unmatched if t in alts]
+            if hit:
+                unmatched.remove(hit[0])
+            else:
+                missing.append(wa)
+        # a term `opt.map_or(0, len)` is 0 on a path where opt is None
+        unmatched = [t for t in unmatched if not (t.startswith("map_or(") and split_call(t) and split_call(t)[1][0] in none_here and split_call(t)[1][1] == "0")]
+        rep.check(not missing and not unmatched, R, "returned-length=sum-of-written:path%d" % n_ok,
+                  "write() returns Ok(%s) on a path on which it wrote %s: %s" % (payload[:120], written, ("not counted: %s" % missing) if missing else ("counted but not written: %s" % unmatched)),
+                  where="%s:%d" % (b.file, b.line), instance={"returned": payload[:160], "written_on_this_path": written})
+    rep.check(n_ok >= 2, R, "ok-paths", "write() has %d successful paths (with and without BOM expected)" % n_ok)
+    rep.floor(R, "write_all calls accounted", most, 2)
+    for w in was:
+        rep.check(question_propagated(b, w), R, "propagated:write_all:%s" % canon(b, w.args[1]), "a write_all result is not `?`-propagated", where=w.where())
+    return True
 
 
 def _static_length_sum(prog, rep, R, b, was, okb):
@@ -516,36 +574,47 @@ def c17a(prog, rep):
         return
     rep.check(dc[0].callee == "encoding_rs::Encoding::decode_without_bom_handling", R, "decode-without-bom-handling",
               "decode_file decodes with %s instead of decode_without_bom_handling (BOM sniffing by the library would override the chosen encoding)" % dc[0].callee, where=dc[0].where())
-    og = origins(b)
-    # the DecodedFile aggregate
-    agg = None
-    for bb, i, s in b.stmts():
-        if s["k"] == "assign" and s["rv"]["k"] == "aggregate" and s["rv"].get("adt", "").endswith("DecodedFile"):
-            agg = s
-    if not rep.check(agg is not None, R, "DecodedFile-aggregate", "decode_file no longer builds a DecodedFile"):
+    # decision table of decode_file: per path, what is decoded, with which encoding, and what is recorded
+    from table import Table, TooComplex, render, split_call
+    try:
+        tb = Table(prog, b)
+    except TooComplex as e:
+        rep.fail(R, "decode-table", "decode_file is no longer a loop-free classifier: %s" % e)
         return
-    fields = agg["rv"]["fields"]
-    ops = dict(zip(fields, agg["rv"]["ops"]))
-    enc_o = og.of_operand(ops["encoding"])
-    dec_recv = og.of_operand(dc[0].args[0])
-    want_enc = {("call", fb[0].bb, "encoding_rs::Encoding::for_bom")}
-    enc_ok = any(x[0] == "call" and x[2] == "encoding_rs::Encoding::for_bom" for x in enc_o) and any(x[0] == "param" and x[1] == 1 and x[2].endswith("encoding") for x in enc_o) \
-        and all((x[0] == "call" and x[2] == "encoding_rs::Encoding::for_bom") or (x[0] == "param" and x[1] == 1) or x[0] == "agg" for x in enc_o)
-    rep.check(enc_ok, R, "encoding=bom-or-configured", "DecodedFile.encoding is no longer {encoding sniffed from the BOM, configured encoding}: %s" % sorted(map(str, enc_o)),
-              instance={"encoding_origins": ["Encoding::for_bom(buf)", "self.encoding"]})
-    rep.check(dec_recv == enc_o, R, "decoded-with-chosen-encoding", "the contents are decoded with a different encoding than the one recorded in DecodedFile (decode receiver %s vs field %s)"
-              % (sorted(map(str, dec_recv)), sorted(map(str, enc_o))), where=dc[0].where(), instance={"decode_receiver": "same origins as DecodedFile.encoding"})
-    bom_o = og.of_operand(ops["bom"])
-    rep.check(any(x[0] == "agg" and x[3].endswith("Option::Some") for x in bom_o) and any(x[0] == "agg" and x[3].endswith("Option::None") for x in bom_o), R,
-              "bom=some-prefix-or-none", "DecodedFile.bom is no longer Some(prefix) on the BOM arm and None otherwise: %s" % sorted(map(str, bom_o)))
-    cont_o = og.of_operand(ops["contents"])
-    rep.check(cont_o == {("call", dc[0].bb, dc[0].callee)}, R, "contents=decode-result", "DecodedFile.contents is not the decode result: %s" % sorted(map(str, cont_o)))
-    # the BOM prefix and the decoded slice split the buffer at the length for_bom reported
-    idx = [c for c in b.calls() if (c.callee or "") == "core::ops::index::Index::index"]
-    descr = sorted(canon(b, c.args[1]) for c in idx)
-    want = sorted(["RangeTo{for_bom(deref(arg4))@Some.0.1}", "RangeFrom{for_bom(deref(arg4))@Some.0.1}", "RangeFull{}"])
-    rep.check(descr == want, R, "buffer-split-at-bom-length", "the buffer is no longer split into [..bom_len] / [bom_len..] (or [..] without BOM): %s" % descr,
-              instance={"slices": descr})
+
+    def clean(x):
+        return re.sub(r"\b(place|call):", "", x).replace(" ", "")
+    BUFS = ("arg4", "deref(arg4)")
+    seen = {"Some": 0, "None": 0}
+    for (cons, res), calls in zip(tb.rows, tb.calls):
+        arm = [c[2] for c in cons if c[0] == "is" and c[1].startswith("for_bom(")]
+        r = clean(render(res)) if not isinstance(res, str) else clean(res)
+        if not r.startswith("Ok("):
+            continue
+        sc = split_call(r)
+        inner = split_call(sc[1][0]) if sc and len(sc[1]) == 1 else None
+        if not rep.check(bool(arm) and inner is not None and inner[0] == "DecodedFile" and len(inner[1]) == 3, R, "ok-result-is-DecodedFile", "decode_file returns Ok(%s) on a path where the BOM was not looked at" % r[:80]):
+            continue
+        bom, contents, enc = inner[1]
+        dec = [a for nm, a in calls if nm.startswith("encoding_rs::Encoding::decode")]
+        good = len(dec) == 1
+        if good:
+            recv, data = clean(dec[0][0]), clean(dec[0][1])
+            good &= contents == "%s(%s,%s).0" % (dc[0].callee.split("::")[-1], recv, data)           # what is recorded is what was decoded
+            good &= enc == recv                                                                        # .. with the recorded encoding
+            if arm[0] == "None":
+                good &= bom == "None" and enc == "arg1.encoding" and data in ["index(arg4,RangeFull)", "as_slice(arg4)", "deref(arg4)", "index(deref(arg4),RangeFull)"]
+            else:
+                fb_ = [a for a in (c[1] for c in cons if c[0] == "is" and c[1].startswith("for_bom(") and c[2] == "Some")]
+                L, E = fb_[0] + "@Some.0.1", fb_[0] + "@Some.0.0"
+                pairs = [("Some(index(%s,RangeTo(%s)))" % (bf, L), "index(%s,RangeFrom(%s))" % (bf, L)) for bf in BUFS] + \
+                        [("Some(split_at(%s,%s).0)" % (bf, L), "split_at(%s,%s).1" % (bf, L)) for bf in BUFS]
+                good &= enc == E and (bom, data) in pairs
+        seen[arm[0]] += 1 if good else 0
+        rep.check(good, R, "decode-table:%s" % arm[0], "decode_file, BOM %s: does not record {BOM prefix, text decoded from the rest of the buffer with the encoding %s, that encoding}: bom=%s contents=%s encoding=%s"
+                  % ("found" if arm[0] == "Some" else "absent", "the BOM announces" if arm[0] == "Some" else "configured", bom[:90], contents[:140], enc[:60]),
+                  where="%s:%d" % (b.file, b.line), instance={"arm": arm[0], "bom": bom[:90], "contents": contents[:160], "encoding": enc[:80]})
+    rep.check(seen["Some"] >= 1 and seen["None"] >= 1, R, "decode-table:both-arms", "decode_file has no successful path for %s" % [k for k, v in seen.items() if not v])
     rd = b.calls_to("std::io::Read::read_to_end")
     rep.check(len(rd) == 1 and question_propagated(b, rd[0]), R, "read-propagated", "read_to_end result is not `?`-propagated")
 
@@ -615,7 +684,8 @@ def c17c(prog, rep):
                       "bom-before-data", "the BOM is no longer written before the encoded data", where=bomw[0].where())
             rep.check(any(f[0] == "arg3" and f[2] == ("Some",) for f in dominating_variant_facts(prog, w, bomw[0].bb)), R, "bom-only-if-some",
                       "the BOM write is not conditional on bom = Some")
-            rep.check(not any(f[0] == "arg3" for f in dominating_variant_facts(prog, w, dataw[0].bb)), R, "data-always",
+            # (a fact `arg3 in {None, Some}` after the join of both arms says nothing)
+            rep.check(not any(f[0] == "arg3" and (f[1] == "is" or len(f[2]) < 2) for f in dominating_variant_facts(prog, w, dataw[0].bb)), R, "data-always",
                       "the data write depends on the BOM being present")
         en = w.calls_to(FF + "encode")
         rep.check(len(en) == 1 and canon(w, en[0].args[0]) == "arg2" and canon(w, en[0].args[1]) == "arg4", R, "encode(encoding,data)",
@@ -649,7 +719,7 @@ def c17c(prog, rep):
     ok = False
     if len(le) == 1:
         for c in dominating_conditions(e, le[0].bb):
-            if c[0] == "call" and c[1].endswith("eq") and c[3] is True:
+            if c[0] == "call" and ((c[1].endswith("::eq") and c[3] is True) or (c[1].endswith("::ne") and c[3] is False)):
                 names = set()
                 for a in c[2]:
                     for x in Origins(e).of_operand(a):
